@@ -3,6 +3,7 @@
 package seq
 
 import (
+	"bufio"
 	"bytes"
 	"context"
 	"crypto/sha256"
@@ -52,6 +53,8 @@ type Op struct {
 	Len         int    `json:"len,omitempty"`    // content length of a write
 	Lvl         int    `json:"lvl,omitempty"`    // begin: 0..3 = level, 4 = Begin() without argument (default level)
 	Via         string `json:"via,omitempty"`    // write path: "" = Set, "reader" = SetReader, "create" = Create+Write*+Close
+	Same        bool   `json:"same,omitempty"`   // set: write the bytes the actor currently reads for the key
+	Src         string `json:"src,omitempty"`    // reader: the concrete source type ("" = the harness's own chunk reader); see World.source
 	Split       []int  `json:"split,omitempty"`  // reader: max bytes per Read; create: sizes of the Write calls (cyclic)
 	N           int    `json:"n,omitempty"`      // burst: number of keys
 	Cctx        bool   `json:"cctx,omitempty"`   // the caller's context is already cancelled when the call is made (inline binding only: it ignores contexts)
@@ -517,11 +520,59 @@ func (c *chunkReader) Read(p []byte) (int, error) {
 	return n, nil
 }
 
+// source builds the io.Reader handed to SetReader. Src selects the concrete type: the standard library's
+// readers have extra methods (Len, Size, WriteTo, ReadAt, Seek) that code may take shortcuts through, and a
+// caller may hand over a reader it has already read a header from - what has to be stored is what is
+// LEFT in the reader.
+func (w *World) source(b []byte, op Op) io.Reader {
+	own := append([]byte(nil), b...)
+	junk := func(n int) []byte { // bytes the caller consumed itself before handing the reader over
+		j := make([]byte, n)
+		for i := range j {
+			j[i] = byte(0xC0 + i%7)
+		}
+		return j
+	}
+	pre := 1 + (len(b)+w.step)%300
+	switch op.Src {
+	case "bytes":
+		return bytes.NewReader(own)
+	case "bytes-consumed":
+		r := bytes.NewReader(append(junk(pre), own...))
+		_, _ = io.CopyN(io.Discard, r, int64(pre))
+		return r
+	case "strings-consumed":
+		r := strings.NewReader(string(junk(pre)) + string(own))
+		_, _ = r.Seek(int64(pre), io.SeekStart)
+		return r
+	case "section":
+		return io.NewSectionReader(bytes.NewReader(append(junk(pre), append(own, junk(17)...)...)), int64(pre), int64(len(own)))
+	case "section-consumed":
+		r := io.NewSectionReader(bytes.NewReader(append(junk(pre), own...)), 0, int64(pre+len(own)))
+		_, _ = io.CopyN(io.Discard, r, int64(pre))
+		return r
+	case "buffer":
+		return bytes.NewBuffer(own)
+	case "bufio":
+		return bufio.NewReaderSize(bytes.NewReader(own), 16+len(own)%5000)
+	case "limited":
+		return io.LimitReader(bytes.NewReader(append(own, junk(pre)...)), int64(len(own)))
+	case "multi":
+		h := len(own) / 2
+		return io.MultiReader(bytes.NewReader(own[:h]), strings.NewReader(""), bytes.NewReader(own[h:]))
+	case "pipe":
+		pr, pw := io.Pipe()
+		go func() { _, _ = pw.Write(own); pw.Close() }()
+		return pr
+	}
+	return &chunkReader{b: own, split: op.Split, eofWithData: len(b)%2 == 1}
+}
+
 // doWrite performs a content write through the chosen path.
 func (w *World) doWrite(s fs_db.Store, key string, b []byte, op Op) error {
 	switch op.Via {
 	case "reader":
-		return s.SetReader(w.ctx, key, &chunkReader{b: append([]byte(nil), b...), split: op.Split, eofWithData: len(b)%2 == 1})
+		return s.SetReader(w.ctx, key, w.source(b, op))
 	case "create":
 		cctx, cancelCreate := w.ctx, func() {}
 		if op.CancelClose && !w.Case.External {
@@ -925,6 +976,14 @@ func (w *World) apply(i int, op Op) bool {
 		v := model.Val{Del: true}
 		if op.K == "set" {
 			v = model.Val{Len: op.Len, Seed: uint32(i + 1)}
+			if op.Same {
+				// write exactly the bytes the actor currently reads for this key (a "save" without changes): still a
+				// write - a new version, part of the transaction's write set, subject to the conflict rule
+				if cur, merr := w.M.Read(id, key); merr == model.OK && len(cur) == 1 && !cur[0].Del {
+					v = cur[0]
+					w.Stats["rewrite-same-bytes"]++
+				}
+			}
 			b := model.Bytes(v)
 			w.noteContent(b, fmt.Sprintf("content written at step %d to %q by %s", i, key, actorName(w, id)))
 			err = w.doWrite(w.store(id), key, b, op)
@@ -1222,6 +1281,11 @@ func (w *World) ApplyDry(i int, op Op) {
 		v := model.Val{Del: true}
 		if op.K == "set" {
 			v = model.Val{Len: op.Len, Seed: uint32(i + 1)}
+			if op.Same {
+				if cur, merr := w.M.Read(id, key); merr == model.OK && len(cur) == 1 && !cur[0].Del {
+					v = cur[0]
+				}
+			}
 			w.noteContent(model.Bytes(v), fmt.Sprintf("content written at step %d to %q by %s", i, key, actorName(w, id)))
 		}
 		w.M.Write(id, key, v)
